@@ -1,0 +1,15 @@
+//go:build verif
+
+package pow
+
+import "github.com/zenon-network/go-zenon/common/types"
+
+// Exports for the verification harness under /verif (build tag verif only).
+
+func VerifTargetByDifficulty(difficulty uint64) [8]byte { return getTargetByDifficulty(difficulty) }
+
+func VerifGreaterDifficulty(x, y []byte) bool { return greaterDifficulty(x, y) }
+
+func VerifHashWithNonce(dataHash types.Hash, nonce []byte) []byte {
+	return hashWithNonce(dataHash, nonce)
+}
